@@ -258,8 +258,11 @@ def st_program(tier2=False, with_mem=True, domains=("sys",), max_sigs=6):
                 row.append(draw(st.one_of(st.integers(0, _m(w)), st.sampled_from([0, _m(w), 1 << (w - 1), (1 << (w - 1)) - 1 if w > 1 else 0]))))
             stim.append(row)
         rst = [draw(st.integers(0, 9)) == 0 for _ in range(ncyc)] if not mems else [False] * ncyc
+        regular_comb = draw(st.integers(0, 4)) != 0
+        # some driven signals are ports of the converted module ('output wire' / 'output reg' declarations in the header)
+        outs = [i for i, s_ in enumerate(sigs) if s_["role"] != "in" and draw(st.integers(0, 3)) == 0]
         return {"sigs": sigs, "body": body, "mems": mems, "stim": stim, "rst": rst, "doms": doms,
-                "regular_comb": draw(st.integers(0, 4)) != 0}
+                "regular_comb": regular_comb, "outs": outs}
     return prog()
 
 
